@@ -207,9 +207,9 @@ var vpC27Gaps = []uint64{1, 2, uint64(time.Second), uint64(30 * time.Second), ui
 	uint64(24 * time.Hour), uint64(7*24*time.Hour) - 1, uint64(7*24*time.Hour) + 1, uint64(8 * 24 * time.Hour)}
 
 func TestVP_C27_lifecycle(t *testing.T) {
-	c := kit.New(t, "C27", "rapid T.Repeat on a genesis-loaded store (7 accepted nodes, reset per case): pledge/accept/cancel/remove written directly with writeNodePledge/Accept/Cancel/Remove inside one Badger transaction each; signer and payee drawn from the genesis keys plus 12 pool keys (reuse likely), strictly increasing timestamps with gaps from {1 ns .. 8 d incl. 12 h +-1, 7 d +-1}, transaction hashes fresh or reused from earlier records; about half of the ops are built to be legal in the reference machine, the rest are arbitrary (accept without pledge, second pledge, wrong payee, reused signer, remove of pledging/removed/unknown node ...). Oracle: an op the store recorded must be legal in the lifecycle machine written from the statement; after every op ReadAllNodes(inf,true) equals the recorded history in (timestamp, signer) order and ReadAllNodes(thr,false) (thr = inf and drawn thresholds) reports every signer once with its latest record; legal ops that are rejected are only counted; non-trivial = history with a pledge->accept->remove cycle of one node and >=2 rejected ops; distinct by op trace")
-	c.Require("cycle", "rejected-illegal", "pledge", "accept", "cancel", "remove", "illegal:wrong-payee", "illegal:accept-without-pledge", "illegal:second-pledge", "illegal:reused-signer", "illegal:remove-while-pledging", "illegal:remove-not-accepted", "pledge-with-latest-tx", "threshold-read")
-	c.Assume("timestamps passed to the store increase strictly (the caller's guarantee, C28)", "a pledge whose transaction hash equals the transaction of a superseded (non-latest) record is not judged: payload hashes are unique in the kernel, the store only checks latest records")
+	c := kit.New(t, "C27", "rapid T.Repeat on a genesis-loaded store (7 accepted nodes, reset per case): pledge/accept/cancel/remove written directly with writeNodePledge/Accept/Cancel/Remove inside one Badger transaction each; signer and payee drawn from the genesis keys plus 12 pool keys (reuse likely), timestamps from a frontier advancing by gaps from {1 ns .. 8 d incl. 12 h +-1, 7 d +-1}; a third of the ops the machine forbids and of the removals are backdated by < 12 h (frontier-1ns/-1s/-1h/-12h+2, just below or strictly between the two newest records; an allowed removal never below its own node's latest record), transaction hashes fresh or reused from earlier records; about half of the ops are built to be legal in the reference machine, the rest are arbitrary (accept without pledge, second pledge, wrong payee, reused signer, remove of pledging/removed/unknown node ...). Oracle: an op the store recorded must be legal in the lifecycle machine written from the statement; after every op ReadAllNodes(inf,true) equals the recorded history in (timestamp, signer) order and ReadAllNodes(thr,false) (thr = inf and drawn thresholds) reports every signer once with its latest record; legal ops that are rejected are only counted; non-trivial = history with a pledge->accept->remove cycle of one node and >=2 rejected ops; distinct by op trace")
+	c.Require("backdated", "backdated-below-newest-record", "illegal:resolve-again", "illegal:remove-again", "cycle", "rejected-illegal", "pledge", "accept", "cancel", "remove", "illegal:wrong-payee", "illegal:accept-without-pledge", "illegal:second-pledge", "illegal:reused-signer", "illegal:remove-while-pledging", "illegal:remove-not-accepted", "pledge-with-latest-tx", "threshold-read")
+	c.Assume("pledge/accept/cancel the machine allows carry a timestamp above every recorded one (the kernel's operation lock and accept window guarantee it); no timestamp lies 12 h or more below the newest record (the writers' look-ahead)", "a pledge whose transaction hash equals the transaction of a superseded (non-latest) record is not judged: payload hashes are unique in the kernel, the store only checks latest records")
 	kit.SetChecks(kit.N(300, 15000))
 	kit.SetSteps(24)
 	sh := vpC27Open(t)
@@ -287,7 +287,7 @@ func TestVP_C27_lifecycle(t *testing.T) {
 				}
 			} else {
 				// targeted near misses on top of the uniform choice
-				switch rapid.IntRange(0, 5).Draw(t, "near_miss") {
+				switch rapid.IntRange(0, 8).Draw(t, "near_miss") {
 				case 0: // right node, wrong payee
 					if pl := m.pledging(); len(pl) > 0 {
 						kind, signer = rapid.SampledFrom([]string{"accept", "cancel"}).Draw(t, "k"), pl[0].Signer
@@ -308,6 +308,31 @@ func TestVP_C27_lifecycle(t *testing.T) {
 					if k, ok := freshKey(); ok {
 						kind, signer = "pledge", k
 					}
+				case 3, 4: // resolve once more a node whose pledge is already resolved, with its own keys
+					var done []vpC27Rec
+					for _, r := range m.latest(^uint64(0)) {
+						if cycle[r.Signer] > 0 && r.State != common.NodeStatePledging {
+							done = append(done, r)
+						}
+					}
+					if len(done) > 0 {
+						sort.Slice(done, func(i, j int) bool { return done[i].Ts > done[j].Ts })
+						r := done[rapid.IntRange(0, min(len(done)-1, 1)).Draw(t, "resolved")]
+						kind, signer, payee = rapid.SampledFrom([]string{"accept", "cancel"}).Draw(t, "k"), r.Signer, r.Payee
+						cls["illegal:resolve-again"] = true
+					}
+				case 5: // remove once more a removed node, with its own keys
+					var gone []vpC27Rec
+					for _, r := range m.latest(^uint64(0)) {
+						if r.State == common.NodeStateRemoved {
+							gone = append(gone, r)
+						}
+					}
+					if len(gone) > 0 {
+						sort.Slice(gone, func(i, j int) bool { return gone[i].Ts > gone[j].Ts })
+						kind, signer, payee = "remove", gone[0].Signer, gone[0].Payee
+						cls["illegal:remove-again"] = true
+					}
 				}
 			}
 			// transaction hash: fresh, or one that already appears in the history
@@ -324,9 +349,37 @@ func TestVP_C27_lifecycle(t *testing.T) {
 					}
 				}
 			}
-			now += rapid.SampledFrom(vpC27Gaps).Draw(t, "gap")
-
 			ok, why := m.legal(kind, signer, payee)
+			// Finalization order is topological, not by timestamp: an op may carry a
+			// timestamp below records already written (the writers look 12 h ahead for
+			// that reason). Ops the machine forbids are offered backdated by < 12 h, in
+			// particular just below the newest record; of the allowed ops only a removal
+			// can be backdated without predating its own node's latest record.
+			frontier := now
+			now += rapid.SampledFrom(vpC27Gaps).Draw(t, "gap")
+			ts := now
+			if (!ok || kind == "remove") && rapid.IntRange(0, 2).Draw(t, "backdate") == 0 {
+				newest := m.sorted(^uint64(0))
+				top := newest[len(newest)-1].Ts
+				cands := []uint64{frontier - 1, frontier - uint64(time.Second), frontier - uint64(time.Hour), frontier - uint64(12*time.Hour) + 2, top - 1, top - 2, top - uint64(time.Minute)}
+				if len(newest) > 1 {
+					// strictly between the two newest records
+					if lo, hi := newest[len(newest)-2].Ts, top; hi-lo > 1 {
+						cands = append(cands, lo+1+rapid.Uint64Range(0, hi-lo-2).Draw(t, "between"))
+					}
+				}
+				b := rapid.SampledFrom(cands).Draw(t, "backdated_ts")
+				own, has := m.latest(^uint64(0))[signer]
+				if b > epoch && b < frontier && frontier-b <= uint64(12*time.Hour)-2 && (!ok || !has || b > own.Ts) {
+					ts, now = b, frontier
+					cls["backdated"] = true
+					if b < top {
+						cls["backdated-below-newest-record"] = true
+					}
+				}
+			}
+			now, ts = ts, now // below, "now" is the op's timestamp; the frontier is restored after the op
+			defer func() { now = ts }()
 			err, panicked := vpC27Apply(sh.s, kind, signer, payee, tx, now)
 			if panicked != "" {
 				t.Fatalf("%s(%s,%s) at %d panicked: %s", kind, signer, payee, now, panicked)
